@@ -15,7 +15,7 @@ import vlib
 LEVEL = "model_checking"
 INV = ["CancelBeforeStopFn", "OfflineAfterWork", "NoLostSignal", "CountersNonNeg"]
 CONCRETE = {
-    "worker": ["worker", "startworker", "service", "hook"],
+    "worker": ["worker", "startworker", "service", "hook", "xhook"],
     "task": ["task"],
     "micro": ["micro_high", "micro_med", "micro_low", "startmicro", "signal"],
 }
@@ -49,7 +49,10 @@ def gen_scripts(ctx, quick, after=False, outs=("ok", "ok", "ok", "err"), per=Non
 
     def one(a):
         k, (n, ks, fn) = a
-        r = ctx.tlc("StopProtocolGen", cfg_text=vlib.cfg_text(spec="GenSpec", constants=consts(n, ks, fn, after)),
+        cc = consts(n, ks, fn, after)
+        # every third configuration holds the first item(s) back until the stop only waits for them
+        cc["LateItems"] = "{}" if after or k % 3 else ("{1}" if k % 2 else "{1, 2}")
+        r = ctx.tlc("StopProtocolGen", cfg_text=vlib.cfg_text(spec="GenSpec", constants=cc),
                     mode="simulate", num=per, depth=150, seed=ctx.seed * 977 + k + (5000 if after else 0),
                     timeout=900, count=False)
         return r.emitted()
@@ -62,7 +65,10 @@ def gen_scripts(ctx, quick, after=False, outs=("ok", "ok", "ok", "err"), per=Non
                 out = rnd.choice(outs)
                 if ck == "signal" and out.startswith("panic"):
                     out = "ok"   # the code between Signal*MicroTask and done() is the caller's own, not managed
-                items.append({"id": "i%d" % (i + 1), "kind": ck, "out": out, "done": rnd.choice([1, 2, 3])})
+                it = {"id": "i%d" % (i + 1), "kind": ck, "out": out, "done": rnd.choice([1, 2, 3])}
+                if ck == "service" and out != "ok" and not after and rnd.random() < 0.6:
+                    it["bo"] = 6000    # still in its restart back-off when the module is stopped
+                items.append(it)
             pol = ["stopper" if a == 0 else "fn" if a == -1 else "i%d" % a for a in g["policy"]]
             scripts.append({"items": items, "hasStopFn": g["hasStopFn"], "dep": True,
                             "mode": rnd.choice(["shutdown", "manage"]), "probes": True, "waitAgain": after,
